@@ -49,6 +49,37 @@ func C07(ctx *core.Ctx) {
 	ctx.Rule("C07.R4", "ack discipline: a message is acknowledged only on the nil-error edge of the callback", 1)
 	ctx.Rule("C07.R6", "fresh channels per subscriber transport instance", 4)
 	ctx.Rule("C07.R7", "no drop between broker and workers: the subscription handler hands each message to the work queue with a plain (back-pressure) send", 1)
+	ctx.Rule("C07.R8", "publish side: every published message is encoded into a buffer of its own and exactly those bytes go to the publisher transport under the caller's topic", 2)
+	if pm, pub := r.Fn("C07.R8", "(FStandardClient).prepareMessage"), r.Fn("C07.R8", "(*FStandardClient).Publish"); pm != nil && pub != nil {
+		var buffer ssa.Value
+		for _, c := range ssax.Calls(pm) {
+			if c.Static != nil && ssax.Name(c.Static) == "(*FProtocolFactory).GetProtocol" {
+				buffer = c.Common.Args[1]
+			}
+		}
+		fresh := false
+		if buffer != nil {
+			if bc, isC := CallValue(buffer); isC && bc.Static != nil && strings.HasPrefix(bc.Static.Name(), "NewTMemoryOutputBuffer") {
+				fresh = true
+			}
+		}
+		ctx.Check(fresh, "C07.R8", ssax.Name(pm)+" › output buffer is allocated per message", fnPos(r, pm), "NewTMemoryOutputBuffer(...) in this call",
+			"messages are encoded into a buffer that outlives the call: the returned bytes alias it, so a concurrent or following publish overwrites a message still being handed to the broker — one event is lost and another delivered twice")
+		okPub := false
+		for _, c := range ssax.Calls(pub) {
+			if c.Method != nil && c.Method.Name() == "Publish" && ssax.TypeNamed(c.Common.Value.Type(), "", "FPublisherTransport") {
+				args := c.Common.Args
+				if len(args) == 2 && IsParam(args[0], pub, 3) {
+					if tup, ok := ExtractOf(args[1], 0); ok {
+						if pc, ok := CallValue(tup); ok && pc.Static == pm {
+							okPub = true
+						}
+					}
+				}
+			}
+		}
+		ctx.Check(okPub, "C07.R8", ssax.Name(pub)+" › publishes prepareMessage's bytes under the topic parameter", fnPos(r, pub), "publisher.Publish(topic, payload)", "what is published is not the encoded message, or not under the caller's topic")
+	}
 	for h := range msgHandlers(r) {
 		if h.Signature.Recv() == nil {
 			continue
